@@ -149,7 +149,16 @@ pub fn world(seed: u64) -> World {
     let mut name = |r: &mut Rng, base: &str| format!("{}-{:08x}{:04x}", base, r.below(1 << 32), r.below(1 << 16));
     let names = [name(&mut r, "alice"), name(&mut r, "bobby"), name(&mut r, "carol")];
     let pws = [format!("pa-{}", r.below(100000)), format!("pb ü {}", r.below(100000)), String::new()];
-    World { names, sks: [r.arr32(), r.arr32(), r.arr32()], pws, salts: [r.arr32(), r.arr32(), r.arr32()], file_pw: format!("file-{}", r.below(1000000)) }
+    let mut w = World { names, sks: [r.arr32(), r.arr32(), r.arr32()], pws, salts: [r.arr32(), r.arr32(), r.arr32()], file_pw: format!("file-{}", r.below(1000000)) };
+    // in a quarter of the worlds the file password, in an eighth the recipient's key password, ends with a
+    // line terminator or a blank (a password taken from a file): those bytes belong to the password
+    if seed % 4 == 3 {
+        w.file_pw.push_str(["\n", "\r\n", " ", "\r"][((seed >> 2) % 4) as usize]);
+    }
+    if seed % 8 == 5 {
+        w.pws[1].push_str(["\n", "\r\n"][((seed >> 3) % 2) as usize]);
+    }
+    w
 }
 
 fn flip_case(s: &str) -> String {
@@ -256,7 +265,17 @@ fn build_inv(s: &Scn, w: &World, wi: &Wiring, input_name: &str, out_name: &str) 
             b.extend_from_slice(&[0x63, 0x61, 0x66, 0xe9, 0xff]);
             inv.env_bytes.push(("KESTREL_PASSWORD".into(), b));
         }
-        Material::WrongPassword => inv = inv.env("KESTREL_PASSWORD", &format!("{}x", right_pw)),
+        Material::WrongPassword => {
+            // another password: one more character, or the same password with / without a line terminator
+            let trimmed = right_pw.trim_end_matches(|c| c == '\n' || c == '\r' || c == ' ').to_string();
+            let wrong = match (s.seed >> 3) % 3 {
+                0 => format!("{}x", right_pw),
+                1 if trimmed != right_pw => trimmed,
+                1 => format!("{}\n", right_pw),
+                _ => format!("{}\r\n", right_pw),
+            };
+            inv = inv.env("KESTREL_PASSWORD", &wrong)
+        }
         _ => inv = inv.env("KESTREL_PASSWORD", &right_pw),
     }
     if key_op && !wi.keyring_opt {
